@@ -203,8 +203,10 @@ class LGANM:
         # Must copy as they can be changed by interventions, but we
         # still want to keep the observational SEM
         W = self.W.copy()
-        variances = self.variances.copy()
-        means = self.means.copy()
+        # (as floats, so that intervention parameters are not truncated
+        # to the dtype of integer-valued means/variances)
+        variances = self.variances.astype(float)
+        means = self.means.astype(float)
 
         # Perform shift interventions
         if shift_interventions:
